@@ -90,7 +90,7 @@ package cff
 
 // readIndex: total on arbitrary input (no panic, terminates, allocation
 // bounded by the input size), reader faults are returned.
-//@ func readIndex(p *parser.Parser) (idx cffIndex, err error)   props: C13 C02 C18
+//@ func readIndex(p *parser.Parser) (idx cffIndex, err error)   props: C13 C02 C18 C01
 //@   requires parser.inv(p) && fsize(p.r) <= 1099511627776
 //@   ensures faults(p.r) > old(faults(p.r)) ==> err != nil
 //@   loop 0
